@@ -146,11 +146,28 @@ def handleRound (input x impl : Json) : R Reply := do
            nontrivial := decide ((validObs rd.ctx limits rd.obs).flatMap (·.performable) ≠ []) || rd.hasPrev,
            tags := tags }
 
+/-- `quorum` — ObservationQuorum of an instance configured with (n, f) for 0 … n attributed observations -/
+def handleQuorum (x impl : Json) : R Reply := do
+  let n ← natF x "n"
+  let f ← natF x "f"
+  let tbl ← listOf asBool (fieldD impl "quorum" .null)
+  let want := (List.range (n + 1)).map (observationQuorum f)
+  let ok := quorumTableOk f tbl && decide (tbl.length = n + 1)
+  let firstBad := (tbl.zipIdx).find? (fun (b, k) => b != observationQuorum f k)
+  pure { agree := decide (tbl = want), specModel := quorumTableOk f want, specImpl := ok,
+         diff := if decide (tbl = want) then "" else s!"n={n} f={f} model {want} impl {tbl}",
+         fail := if ok then "" else match firstBad with
+           | some (b, k) => s!"ObservationQuorum is not (number of observations >= 2f+1): n={n} f={f}, {k} observations give {b}, 2f+1 = {2 * f + 1}"
+           | none => "quorum table incomplete",
+         nontrivial := decide (n ≥ 2),
+         tags := (if decide (n > 3 * f + 1) then ["n>3f+1"] else ["n=3f+1"]) ++ (if f == 0 then ["f=0"] else []) }
+
 def handle (input impl : Json) : R Reply := do
   let x ← field input "x"
   match ← strF input "kind" with
   | "obs" => handleObs x impl
   | "round" => handleRound input x impl
+  | "quorum" => handleQuorum x impl
   | k => throw s!"C03: unknown case kind {k}"
 
 end AutoVerif.C03
